@@ -42,7 +42,7 @@ VOCAB = [
     ("datetime", "date.today", "benign_std"),
     ("builtins", "frozenset", "builtins"), ("builtins", "bytearray", "builtins"), ("builtins", "list", "builtins"),
     ("builtins", "dict", "builtins"), ("builtins", "tuple", "builtins"), ("builtins", "object", "builtins"),
-    ("verif_sink", "frozenset", "nonstd"), ("collections", "set", "benign_std"),
+    ("verif_sink", "frozenset", "nonstd"), ("collections", "set", "benign_std"), ("verif_sink", "ext_target", "nonstd"),
 ]
 # names that the decompiler or some rule could special-case (builtin constructors, the evalish four, attribute helpers):
 # every SHORT shape that makes a call is instantiated with each of them, not only with the rotating vocabulary entry
@@ -226,6 +226,7 @@ PLANS = {
                         dict(profile="kwargs", maxlen=8, maxdepth=5, require=("NEWOBJ_EX", "SETITEM")),
                         dict(profile="kwdup", maxlen=10, maxdepth=7, require=("NEWOBJ_EX", "DICT")),
                         dict(profile="eqkeys", maxlen=6, maxdepth=5, sample=3000),
+                        dict(profile="ext", maxlen=5, maxdepth=5, require=("EXT",)),
                         dict(profile="mixed", maxlen=14, simulate=120, depth=14, minstop=7, maxdepth=6)],
                   per_shape=1, natural=400),
     "thorough": dict(plan=[dict(profile="calls", maxlen=6), dict(profile="data", maxlen=6),
@@ -237,6 +238,7 @@ PLANS = {
                            dict(profile="kwargs", maxlen=9, maxdepth=6, require=("NEWOBJ_EX", "SETITEM")),
                            dict(profile="kwdup", maxlen=11, maxdepth=7, require=("NEWOBJ_EX", "DICT")),
                            dict(profile="eqkeys", maxlen=7, maxdepth=6, sample=60000),
+                           dict(profile="ext", maxlen=6, maxdepth=5, require=("EXT",)),
                            dict(profile="mixed", maxlen=30, simulate=6000, depth=30, minstop=10, maxdepth=8)],
                      per_shape=2, natural=6000),
 }
@@ -302,7 +304,7 @@ def run_family(ctx, prop, clause_of, nontrivial, rule, want=("steps", "dec", "ch
     modelled = ["CONST", "MARK", "PROTO", "FRAME", "POP", "POP_MARK", "DUP", "PUT", "MEMOIZE", "GET", "GLOBAL", "STACK_GLOBAL",
                 "EMPTY_TUPLE", "TUPLE1", "TUPLE2", "TUPLE3", "TUPLE", "EMPTY_LIST", "EMPTY_DICT", "EMPTY_SET", "LIST", "DICT",
                 "FROZENSET", "APPEND", "APPENDS", "SETITEM", "SETITEMS", "ADDITEMS", "REDUCE", "NEWOBJ", "NEWOBJ_EX", "OBJ",
-                "INST", "BUILD", "BINPERSID", "PERSID", "STOP"]
+                "INST", "BUILD", "BINPERSID", "PERSID", "EXT", "STOP"]
     never = [o for o in modelled if not opcount.get(o)]
     if never:       # vacuity guard: every transition of the reference machine must be exercised by the tier's inputs
         mach.append("opcodes of the specification never exercised by this run: " + ",".join(never))
